@@ -106,7 +106,7 @@ class ReactionSystem(object):
                 )
 
         if missing_substances_from_keys:
-            for k in set.union(*[set(rxn.keys()) for rxn in self.rxns]) - set(
+            for k in set.union(set(), *[set(rxn.keys()) for rxn in self.rxns]) - set(
                 self.substances
             ):
                 self.substances[k] = substance_factory(k)
